@@ -191,17 +191,27 @@ Proof.
   intros H. apply tidx_read_length in H. apply N.eqb_eq in E. lia.
 Qed.
 
-(* add_offset then reading a slot = the stored slot shifted: the lookup path's arithmetic *)
-Theorem tidx_add_offset_nth o idx out : tidx_add_offset o idx = Ok out ->
-  forall i p, nth_error idx i = Some p -> nth_error out i = Some (fst p + o, snd p) /\ fst p + o <= u64_max.
+(* add_offset then reading a slot = the stored slot shifted (saturating at u64::MAX); never a failure *)
+Theorem tidx_add_offset_total o idx : exists out, tidx_add_offset o idx = Ok out.
 Proof.
-  revert out. induction idx as [|[off len] r IH]; intros out H i p Hp; [destruct i; discriminate|].
-  cbn [tidx_add_offset] in H. destruct (u64_max <? off + o) eqn:E; [discriminate|]. apply N.ltb_ge in E.
-  destruct (tidx_add_offset o r) as [rest| | |] eqn:Er; cbn in H; try discriminate. inversion H; subst.
+  unfold tidx_add_offset. induction idx as [|[off len] r IH]; [eexists; reflexivity|].
+  cbn [tidx_add_offset_v N.eqb andb]. destruct IH as (out & ->). eexists. reflexivity.
+Qed.
+
+Theorem tidx_add_offset_nth o idx out : tidx_add_offset o idx = Ok out ->
+  forall i p, nth_error idx i = Some p -> nth_error out i = Some (N.min (fst p + o) u64_max, snd p).
+Proof.
+  unfold tidx_add_offset. revert out. induction idx as [|[off len] r IH]; intros out H i p Hp; [destruct i; discriminate|].
+  cbn [tidx_add_offset_v N.eqb andb] in H.
+  destruct (tidx_add_offset_v 1 o r) as [rest| | |] eqn:Er; cbn in H; try discriminate. inversion H; subst.
   destruct i as [|i]; cbn [nth_error] in *.
-  - inversion Hp; subst. cbn [fst snd]. split; [reflexivity|exact E].
+  - inversion Hp; subst. reflexivity.
   - exact (IH rest eq_refl i p Hp).
 Qed.
+
+(* the pinned source overflowed on an offset close to u64::MAX *)
+Theorem tidx_add_offset_overflow_v0 : tidx_add_offset_v 0 66 [(u64_max - 2, 5)] = Overflow /\ tidx_add_offset 66 [(u64_max - 2, 5)] = Ok [(u64_max, 5)].
+Proof. split; vm_compute; reflexivity. Qed.
 
 (* ---------- file header ---------- *)
 Definition hdr_wf (h : hdr) : Prop :=
